@@ -721,6 +721,19 @@ class SSHTransportBase(protocol.Protocol):
             DISCONNECT_PROTOCOL_VERSION_NOT_SUPPORTED, b"bad version " + remoteVersion
         )
 
+    def _checkIdentificationLength(self):
+        """
+        Called while the peer's version line has not arrived: disconnect if
+        more than 4KB are waiting for it.  (Once the version line is there,
+        the packets that arrived in the same delivery do not count.)
+        """
+        if len(self.buf) > 4096:
+            self.sendDisconnect(
+                DISCONNECT_CONNECTION_LOST,
+                b"Peer version string longer than 4KB. "
+                b"Preventing a denial of service attack.",
+            )
+
     def dataReceived(self, data):
         """
         First, check for the version string (SSH-2.0-*).  After that has been
@@ -732,15 +745,8 @@ class SSHTransportBase(protocol.Protocol):
         """
         self.buf = self.buf + data
         if not self.gotVersion:
-            if len(self.buf) > 4096:
-                self.sendDisconnect(
-                    DISCONNECT_CONNECTION_LOST,
-                    b"Peer version string longer than 4KB. "
-                    b"Preventing a denial of service attack.",
-                )
-                return
-
             if self.buf.find(b"\n", self.buf.find(b"SSH-")) == -1:
+                self._checkIdentificationLength()
                 return
 
             # RFC 4253 section 4.2 ask for strict `\r\n` line ending.
@@ -766,6 +772,7 @@ class SSHTransportBase(protocol.Protocol):
             if not self.gotVersion:
                 # Only lines preceding the version string (RFC 4253 section
                 # 4.2) have arrived so far; they are not binary packets.
+                self._checkIdentificationLength()
                 return
         packet = self.getPacket()
         while packet:
